@@ -37,6 +37,9 @@ CLAIMS["C02"] = dict(technique="Lean 4 refinement proof to a specification monit
 CLAIMS["C03"] = dict(technique="Lean 4 proof of the decision logic stated outright (all configurations, outcomes, strings) over regenerated guards and dispatch tables; exhaustive differential matrix on the real endpoints",
     text="Proved: with a working connection exactly one reply, the one the property's table prescribes (handler response / handler's code / NotSupported / constraint-violation class by dialect / GenericError / InternalError; invalid handler codes fall back to GenericError); never more than one reply; the handler runs iff the action is known, its handler set and this role receives it; the valid-code set is exactly OCPP-J's; the regenerated action switches are coherent (asserted type = feature's request type, method in the profile's handler interface). The matrix (feature x outcome x handler x role x write) runs on fresh real endpoints against the model and an independent oracle.",
     note=BASE_NOTE + "Handlers are generated stubs; concurrency between CALLs adds no shared state in the model (each CALL is answered from its own arguments).", **_D)
+CLAIMS["C06"] = dict(technique="Lean 4 proof over a total model of the OCPP-J receive path (every decoded JSON value, every payload verdict) composed with the dispatcher refinement: invariant preserved by every interleaving of arbitrary frames with API events; differential on real endpoints with malformed-frame stream; process-isolated fuzz monitor on the four protocol endpoints",
+    text="Proved: a frame that is not a CALL_RESULT/CALL_ERROR carrying the non-empty id of the outstanding request leaves the whole endpoint state equal (client: every field; server: every client's record); such a state-changing frame is exactly the dispatcher event `reply id`, so every unbounded interleaving of arbitrary frames (any JSON value or non-JSON, any payload verdict) with well-formed API/connection events keeps the client invariant (alive: no panic, nothing wedged; bookkeeping = specification); an error reply is written only with the frame's own non-empty id of at most 36 characters and a valid OCPP-J code, at most one per frame. Server side: state-equality and reply-event theorems (the server refinement is not proved; its liveness is C07_partial). Crash freedom of typed decoding for arbitrary payloads is searched (fuzz monitor), not proved.",
+    note=BASE_NOTE + "Model starts at the decoded JSON value (encoding/json trusted). Payload decoding/validation is a parameter of the model; its panic-freedom on arbitrary payloads is only searched by monitor c06_fuzz.", **_D)
 CLAIMS["C07"] = dict(technique="Lean 4 invariant proof (no wedged / crashed quiescent state, progress clause) + schedule search on the implementation",
     text="The full property is false of the code (deadlocks reproduced on the unchanged tree: known findings S11). Proved (C07_partial): for every history at quiescence granularity the client endpoint never wedges or panics, internal activity terminates, every quiescent state has the head written or the queue empty or is paused, and the ready channel is empty whenever the pump is parked. Progress is also a clause of the specification monitors run over every implementation history (client and server).",
     note=DISP_NOTE, **_D)
